@@ -53,6 +53,10 @@ def initial_cases(tier, seed):
     for ctor in ("VI", "VIJ", "FracLapl-l1", "FracLapl-ld"):
         for n0, n1, n2 in itertools.product((1, 2, 3), repeat=3):
             cases.append({"kind": "dots", "ctor": ctor, "n0": n0, "n1": n1, "n2": n2, "seed": seed})
+    # a process-local subset of the exponent ladder (proc_inds) is a column subset of the full coefficient set
+    for plan, order, (fam, i), proc in itertools.product(("gaussian", "spline"), ("gq", "qg"), (("VK", -1), ("VK", 0), ("VIJ", -1), ("VIJ", 0), ("VJ", 1)),
+                                                          ([1, 3, 4], [0], [6, 2], list(range(7)))):
+        cases.append({"kind": "procinds", "plan": plan, "order": order, "fam": fam, "i": i, "proc": proc, "seed": seed})
     for team in (1, 3):
         for part in range(8):
             cases.append({"kind": "asan", "team": team, "part": part, "nparts": 8, "tier": tier, "seed": seed})
@@ -474,6 +478,46 @@ def run_dots(case):
 
 
 # ----------------------------------------------------------------------------- memory safety
+def run_procinds(case):
+    from ciderpress.dft import plans as P
+
+    from mc import fixtures as F
+
+    st = F.feature_settings(case["fam"], normalize=False).nldf_settings
+    cls = P.NLDFGaussianPlan if case["plan"] == "gaussian" else P.NLDFSplinePlan
+    order, i, proc = case["order"], case["i"], list(case["proc"])
+    full = cls(st, 1, 0.1, 3.0, 7, coef_order=order, alpha_formula="etb")
+    loc = cls(st, 1, 0.1, 3.0, 7, coef_order=order, alpha_formula="etb", proc_inds=proc)
+    n = 9
+    rho = np.exp(np.linspace(np.log(1e-3), np.log(0.8), n))
+    sigma = (0.3 * rho ** (4.0 / 3)) ** 2 * 1.3
+    tau = sigma / (8 * rho) + 2.871 * rho ** (5.0 / 3) * 0.7
+    ck = "plan=%s;order=%s;fam=%s;i=%d;proc=%s" % (case["plan"], order, case["fam"], i, ",".join(map(str, proc)))
+    fails = []
+    out = []
+    res = []
+    for pl in (full, loc):
+        a, _ = pl.get_interpolation_arguments((rho.copy(), sigma.copy(), tau.copy()), i=i)
+        # guard pages of NaN around the outputs: a routine told the wrong ladder size writes into them
+        nal = pl.local_nalpha
+        shape = (n, nal) if order == "gq" else (nal, n)
+        vb = np.full(n * nal + 64, np.nan)
+        db = np.full(n * nal + 64, np.nan)
+        p_, dp_ = pl.get_interpolation_coefficients(np.ascontiguousarray(a), i=i, vbuf=vb, dbuf=db)
+        if p_.shape != shape or dp_.shape != shape:
+            fails.append({"key": "procinds-shape;" + ck, "msg": "coefficients have shape %s, ladder subset has %d exponents" % (p_.shape, nal)})
+            return {"fail": fails, "evals": 2, "outcome": "shape"}
+        if not (np.all(np.isnan(vb[n * nal:])) and np.all(np.isnan(db[n * nal:]))):
+            fails.append({"key": "procinds-writes-past-buffer;" + ck, "msg": "get_interpolation_coefficients wrote beyond the %d x %d output it was given" % shape})
+        res.append((np.array(p_), np.array(dp_)))
+    (pf, dpf), (pl_, dpl) = res
+    subf, subd = (pf[:, proc], dpf[:, proc]) if order == "gq" else (pf[proc], dpf[proc])
+    d = max(np.abs(subf - pl_).max(), np.abs(subd - dpl).max()) if subf.shape == pl_.shape else np.inf
+    if not d <= 1e-13 * (1 + np.abs(pf).max()):
+        fails.append({"key": "procinds-not-subset;" + ck, "msg": "coefficients of the plan restricted to exponents %s differ from those columns of the full plan by %.3e" % (proc, d)})
+    return {"fail": fails, "evals": 2, "outcome": [ck, float("%.9e" % np.abs(pl_).sum())]}
+
+
 def run_asan(case):
     from mc.boot import VERIF, det_env
     from mc.build import build
@@ -524,6 +568,8 @@ def run_case(case):
         return run_invalid(case)
     if k == "dots":
         return run_dots(case)
+    if k == "procinds":
+        return run_procinds(case)
     return run_asan(case)
 
 
